@@ -27,7 +27,7 @@ class C03(Check):
                    'comment are never compared (parsed content and byte prefixes only)',
                    'the audit hook sees every open() made through the io layer (builtin open / io.open)']
     REQUIRED_COUNTERS = ('append_write_failures', 'unsized_char_histories', 'appends_ok', 'refusals_write_over', 'refusals_append_missing', 'append_empty', 'write_copy',
-                         'rereads_raw', 'prefix_checks', 'audit_open_events', 'lowercase_key_appends', 'array_form_appends')
+                         'rereads_raw', 'prefix_checks', 'audit_open_events', 'lowercase_key_appends', 'array_form_appends', 'append_zero_rows')
 
     def setup(self):
         import pydl.pydlutils.yanny as Y
@@ -135,6 +135,15 @@ class C03(Check):
                 ops.append({'op': 'pairs', 'pairs': ps})
             elif op == 'reread':
                 ops.append({'op': 'reread', 'raw': (rng.random() < 0.5) if cls != 'raw_histories' else True})
+            elif op == 'empty':
+                # 'appending nothing': an empty dict, tables given with zero rows (either form, either case), only 'symbols'
+                how = rng.choice(['dict', 'zero_rows', 'zero_rows', 'symbols'])
+                d = {'op': 'empty', 'how': how}
+                if how == 'zero_rows':
+                    which = rng.sample(range(ntab), rng.randint(1, min(2, ntab)))
+                    d['form'] = rng.choice(['list', 'array'])
+                    d['tables'] = [{'ti': ti, 'key': rng.choice(['upper', 'lower']), 'rows': []} for ti in which]
+                ops.append(d)
             else:
                 ops.append({'op': op})
         return {'kind': cls, 'start': {'tables': tables, 'enums': enums, 'hdr': hdr},
@@ -142,7 +151,8 @@ class C03(Check):
 
     @staticmethod
     def _pair(rng, n, names=()):
-        k = rng.choice(['k%d' % rng.randint(0, 4), 'key_%d' % n, 'K%d' % rng.randint(0, 2), M.ident(rng, 2, 6)])
+        k = rng.choice(['k%d' % rng.randint(0, 4), 'key_%d' % n, 'K%d' % rng.randint(0, 2), M.ident(rng, 2, 6),
+                        M.pair_key(rng, 2, 6, p_reserved=0.8)])
         # documented skip: keys equal to a table name (any case) or 'symbols' are not pairs
         if k.lower() == 'symbols' or k.upper() in [x.upper() for x in names]:
             k = 'key_%d' % n
@@ -327,7 +337,13 @@ class C03(Check):
                         finally:
                             resource.setrlimit(resource.RLIMIT_FSIZE, (soft, hard))
                     elif op['op'] == 'empty':
-                        y.append({})
+                        if op.get('how') == 'zero_rows':
+                            y.append(self._append_arg(model, op))
+                            out.count('append_zero_rows')
+                        elif op.get('how') == 'symbols':
+                            y.append({'symbols': y._symbols if hasattr(y, '_symbols') else {}})
+                        else:
+                            y.append({})
                     elif op['op'] == 'copy':
                         ncopy += 1
                         y.write(os.path.join(d, 'copy%d.par' % ncopy))
